@@ -4,7 +4,7 @@ import numpy as np
 
 from classy_blocks.construct.curves.curve import FunctionCurveBase
 from classy_blocks.construct.point import Point
-from classy_blocks.types import NPVectorType, ParamCurveFuncType, PointType, VectorType
+from classy_blocks.types import NPPointType, NPVectorType, ParamCurveFuncType, PointType, VectorType
 from classy_blocks.util import functions as f
 
 
@@ -38,7 +38,11 @@ class LineCurve(AnalyticCurve):
         self.point_1 = Point(point_1)
         self.point_2 = Point(point_2)
 
-        super().__init__(lambda t: self.point_1.position + self.vector * t, bounds)
+        # a bound method (not a lambda closing over self) so that a copy evaluates its own points
+        super().__init__(self._get_line_point, bounds)
+
+    def _get_line_point(self, param: float) -> NPPointType:
+        return self.point_1.position + self.vector * param
 
     @property
     def vector(self) -> NPVectorType:
@@ -71,7 +75,11 @@ class CircleCurve(AnalyticCurve):
         normal = f.unit_vector(normal)
         self.atop = Point(origin + normal)
 
-        super().__init__(lambda t: f.rotate(self.rim.position, t, self.normal, self.origin.position), bounds)
+        # a bound method (not a lambda closing over self) so that a copy evaluates its own points
+        super().__init__(self._get_circle_point, bounds)
+
+    def _get_circle_point(self, param: float) -> NPPointType:
+        return f.rotate(self.rim.position, param, self.normal, self.origin.position)
 
     def mirror(self, normal: VectorType, origin: Optional[PointType] = None):
         """A reflection reverses the sense of rotation: the normal is flipped
